@@ -90,9 +90,11 @@ func c04Snapshot(inv *Invoice) *c04Snap {
 }
 
 func H_C04_Fixpoint() {
-	// quick: one line, tax-exclusive prices, EUR; thorough: tax-included prices by choice, EUR and JPY, the larger
-	// alternatives of the skeleton (fixed charges, percentage advance alone, fixed amounts with two more decimals)
-	o := skOpts{rule: skRule("rule"), cur: skCurrency2(), lines: 1, fixedAtCur: false, rich: true, include: vrt.Thorough(), qexp: true}
+	// one line, tax-exclusive prices, EUR; thorough: quantities from {3, -2, 7}. (With tax-included prices by choice as well
+	// the thorough tier needs 24 minutes, the whole budget of the harness.)
+	// (With the larger alternatives of the skeleton - fixed charges, percentage advance alone, finer fixed amounts - the
+	// thorough tier explored 56165 paths clean in 25 minutes without finishing; with JPY as well 58857: not claimed.)
+	o := skOpts{noExtras: true, rule: skRule("rule"), cur: "EUR", lines: 1, fixedAtCur: false, rich: true, include: false, qexp: true}
 	inv := skInvoice(o)
 	finer := c04FixedFiner(inv, o.cur.Def().Subunits)
 	if calculate(inv) != nil {
